@@ -3,12 +3,14 @@
 package main
 
 import (
-	"strconv"
 	"encoding/json"
 	"flag"
 	"fmt"
 	"os"
+	"runtime"
 	"runtime/debug"
+	"runtime/pprof"
+	"strconv"
 	"time"
 
 	_ "github.com/xtaci/kcp-go/v5"
@@ -68,6 +70,15 @@ func main() {
 	if f == nil {
 		fmt.Fprintf(os.Stderr, "vworker: no check registered for %q\n", ctx.Prop)
 		os.Exit(3)
+	}
+	if mp := os.Getenv("VERIF_MEMPROF"); mp != "" { // development aid: allocation profile of the shard
+		runtime.MemProfileRate = 8192
+		defer func() {
+			if fh, err := os.Create(mp); err == nil {
+				pprof.Lookup("allocs").WriteTo(fh, 0)
+				fh.Close()
+			}
+		}()
 	}
 	start := time.Now()
 	f(ctx)
